@@ -1,11 +1,27 @@
 """C16 — reconnect: generator, implementation-side monitors"""
 import bisect
+import random
 from gen.util import kvs, tparse
 
 MS = 1000000
 
 
 # ----------------------------------------------------------------------------- generator
+
+def _chain(rng, out):
+    """give an error a `source()` chain: `errK>J>I` is an error of kind K caused by an error of kind J caused by an
+    error of kind I. Only K is what the predicate is asked about; heads the predicates reject (2, 3) get causes more
+    often, and the causes are biased to the kind every predicate accepts (1)"""
+    if not out.startswith("err"):
+        return out
+    # a private stream seeded from the generator's current state, which is not advanced: giving errors causes leaves
+    # every other choice of a case (heads, latencies, ops: the cases of the earlier rounds) exactly as it was
+    rng = random.Random(hash(rng.getstate()[1]))
+    if rng.random() >= (0.2 if out == "err1" else 0.6):
+        return out
+    depth = rng.choice([1, 1, 1, 2, 3])
+    return out + "".join(">%d" % rng.choice([1, 1, 2, 3]) for _ in range(depth))
+
 
 def _plan(rng):
     n = rng.choice([1, 1, 2, 3, 4, 5, 7])
@@ -25,7 +41,7 @@ def _plan(rng):
         else:
             out = "err1"
         lat = rng.choice([0, 0, 0, 1, 2, 5, rng.randint(0, 12)])
-        steps.append("%d:%s" % (lat, out))
+        steps.append("%d:%s" % (lat, _chain(rng, out)))
     return ",".join(steps)
 
 
@@ -96,6 +112,7 @@ def _plan_overlap(rng):
         first = "%d:panic" % rng.choice([0, 2])
     else:
         first = "0:never"
+    first = _chain(rng, first)
     if first.endswith("ok") or rng.random() < 0.3:
         return first
     return first + "," + _plan(rng)
@@ -294,11 +311,23 @@ def _per_caller(lines):
     return calls, results
 
 
+def _chains(meta):
+    """(request, serial) -> kinds of the `source()` chain of the error that inner call returned ('#chain c k J>I')"""
+    out = {}
+    for _, m in (meta or []):
+        w = m.split()
+        if len(w) == 4 and w[0] == "#chain":
+            out[(w[1], w[2])] = [int(x) for x in w[3].split(">")]
+    return out
+
+
 def mon_calls(case, lines, meta):
-    """at most max_attempts+1 inner calls per request; a further call only after a reconnectable error,
+    """at most max_attempts+1 inner calls per request; a further call only after a reconnectable error — an error
+    that the predicate ITSELF classifies as a connection failure, whatever its source() chain contains —,
     only with retry_on_reconnect and a policy; never after policy none"""
     cfg = Cfg(case["header"])
     calls, _ = _per_caller(lines)
+    chains = _chains(meta)
     for c, cs in calls.items():
         if cfg.max is not None and len(cs) > cfg.max + 1:
             return "request %s: %d inner calls, max_attempts=%d" % (c, len(cs), cfg.max)
@@ -308,7 +337,13 @@ def mon_calls(case, lines, meta):
                 return "request %s: inner call %s made after call %s which ended %r (not an error)" % (c, cs[i]["k"], prev["k"], prev["out"])
             kind = int(prev["out"][3:])
             if not cfg.reconnectable(kind):
-                return "request %s: retried after err%d, which the predicate does not classify as a connection failure" % (c, kind)
+                causes = chains.get((c, prev["k"]), [])
+                note = ""
+                if causes:
+                    note = " (its source() chain is %s%s)" % (
+                        " > ".join("err%d" % x for x in causes),
+                        ": the predicate accepts a cause, not the error" if any(cfg.reconnectable(x) for x in causes) else "")
+                return "request %s: retried after err%d, which the predicate does not classify as a connection failure%s" % (c, kind, note)
             if not cfg.retry:
                 return "request %s: retried although retry_on_reconnect=false" % c
             if cfg.policy == "none":
@@ -500,6 +535,24 @@ def transitions(case, lines, meta=None):
                     up = True
         elif w[0] == "probe":
             tags.append("probe-" + w[3])
+    heads = {}
+    for l in lines:
+        t, w = tparse(l)
+        if w and w[0] == "inner_done" and w[3].startswith("err"):
+            heads[(w[1], w[2])] = int(w[3][3:])
+    for (c, k), causes in _chains(meta).items():
+        if (c, k) not in heads:
+            continue
+        tags.append("error-with-causes")
+        if len(causes) > 1:
+            tags.append("cause-chain-deeper-than-one")
+        if cfg.pred is not None:
+            if not cfg.reconnectable(heads[(c, k)]) and any(cfg.reconnectable(x) for x in causes):
+                tags.append("rejected-head-accepted-cause")
+                if not cfg.reconnectable(causes[0]):
+                    tags.append("rejected-head-accepted-deep-cause")
+            if cfg.reconnectable(heads[(c, k)]) and any(not cfg.reconnectable(x) for x in causes):
+                tags.append("accepted-head-rejected-cause")
     gone = None
     for i, m in (meta or []):
         w = m.split()
@@ -551,9 +604,11 @@ SPECS = {
                             "issued-while-others-outstanding", "ok-first-after-foreign-failure",
                             "ok-first-after-foreign-failure-issued-while-connected", "first-poll-late", "dropsvc",
                             "progress-after-dropsvc", "noop-after-dropsvc", "arrival-inside-inner-destructor",
-                            "arrive-via-same", "arrive-via-swap", "arrive-via-layer", "arrive-keep", "arrive-coop", "arrive-burn"],
-        "model_modules": ["TR.Model.Reconnect", "TR.Lemmas.Reconnect", "TR.Lemmas.ReconnectHistory"],
-        "lean_files": ["TR.Model.Reconnect", "TR.Lemmas.Reconnect", "TR.Lemmas.ReconnectHistory"],
+                            "arrive-via-same", "arrive-via-swap", "arrive-via-layer", "arrive-keep", "arrive-coop", "arrive-burn",
+                            "error-with-causes", "cause-chain-deeper-than-one", "rejected-head-accepted-cause",
+                            "rejected-head-accepted-deep-cause", "accepted-head-rejected-cause"],
+        "model_modules": ["TR.Model.Reconnect", "TR.Lemmas.Reconnect", "TR.Lemmas.ReconnectHistory", "TR.Lemmas.ReconnectChain"],
+        "lean_files": ["TR.Model.Reconnect", "TR.Lemmas.Reconnect", "TR.Lemmas.ReconnectHistory", "TR.Lemmas.ReconnectChain"],
         "sizes": (600, 30000),
         "rule": "40 % of the cases: 2..6 requests outstanding at the same time on one shared ReconnectState (made through a dropped "
                 "clone, the same handle, the mem::replace idiom or a service made by the same layer), issue / late or missing first poll / "
@@ -563,6 +618,8 @@ SPECS = {
                 "cancelled inner call), callers that keep finished futures / poll under the cooperative budget; the rest: "
                 "seeded random op sequences (arrive/poll/drop/adv/settle/probe state) over 1..3 requests sharing one ReconnectLayer, "
                 "plans of 1..7 scripted inner outcomes (ok / reconnectable err1 / other err2,err3 / panic / never, latency 0..12 ms), "
+                "errors optionally with a scripted source() chain of depth 1..3 (errK>J>I: the predicate classifies each error by that "
+                "error's own kind; heads the predicate rejects with causes it accepts, and the reverse), "
                 "max_attempts none/0/1/2/3/5, policy none/fixed/exponential/jittered/custom with delays 0..50 ms, retry_on_reconnect on/off, "
                 "predicate absent/{1}/{1,2}/{1,3}; advances biased to delay-1/delay/delay+1; distinct = distinct implementation event log; "
                 "non-trivial = at least one retry or a non-success result",
@@ -571,7 +628,8 @@ SPECS = {
         "assumptions": ["one poll of one call future is atomic (single-threaded runtime)", "u32 attempt counter modelled as unbounded Nat",
                         "policy delays are whole milliseconds except for the jittered policy"],
         "level_text": "Theorems TR.Props.C16.*: for every configuration (max_attempts none/any, any policy incl. none/custom/randomised, "
-                      "retry_on_reconnect on/off, any predicate), every operation sequence (any number of requests, any poll/advance/cancel "
+                      "retry_on_reconnect on/off, any predicate), any source() chain of the inner errors (only the error itself is classified: "
+                      "histories that differ in causes only give the same run), every operation sequence (any number of requests, any poll/advance/cancel "
                       "order) and every script of inner outcomes: a request makes at most max_attempts+1 inner calls; every further call follows "
                       "a reconnectable error, with retry_on_reconnect on and a policy delay that the policy allows for that attempt, not earlier "
                       "than error instant + delay; the result is determined by the last inner call (first success, or the variant wrapping the "
